@@ -23,6 +23,8 @@ const ILLEGAL: [&str; 22] = [
     "#", "\\", "\t", "\n", "$", "?", "3.4.", "\u{7}", "`", "ά", "ή", "ΐ", "Ϊ", "ΰ", "ϊ", "é", "д", "漢", "٣", "😀",
     "\u{a0}", "\u{3000}",
 ];
+const BAD_ARRAYS: [&str; 12] =
+    ["[#1, 2, 3]", "[1, $2]", "[$4, 5]", "[1 2]", "[1,,2]", "[,1]", "[1,2", "[a1,2]", "[1;2]", "[1,2,]", "[1, ?]", "[\\1]"];
 const VAL_LITS: [&str; 7] = ["1", "2", "0.5", "10", "true", "[1,2,3]", "7"];
 
 struct Damaged {
@@ -34,7 +36,7 @@ struct Damaged {
 fn damage(t: &mut Tape, toks: &[Tok], table: &[OpSpec], tk: TableKind) -> Damaged {
     let mut toks: Vec<Tok> = toks.to_vec();
     let n = toks.len();
-    let kind_idx = t.choose(6);
+    let kind_idx = if tk == TableKind::Val { t.choose(7) } else { t.choose(6) };
     let mut interior = false;
     // illegal characters may also be glued to their neighbours without a space
     let mut glue_illegal = false;
@@ -107,6 +109,18 @@ fn damage(t: &mut Tape, toks: &[Tok], table: &[OpSpec], tk: TableKind) -> Damage
                 glue_illegal = true;
             }
             "illegal character sequence"
+        }
+        6 => {
+            // an operand replaced by a corrupted array literal (illegal character or missing
+            // element inside the brackets)
+            let operands: Vec<usize> = (0..n).filter(|i| toks[*i].kind == TokKind::Operand).collect();
+            let p = *t.pick(&operands);
+            interior = p > 0 && p + 1 < n;
+            let bad = *t.pick(&BAD_ARRAYS);
+            let mut tok = Tok::operand(bad);
+            tok.braced = true; // opaque: never glued to its neighbours
+            toks[p] = tok;
+            "corrupted array literal"
         }
         _ => {
             // fixed degenerate forms
